@@ -401,7 +401,12 @@ EvalCall(p, pl, env, c, path, ctx) ==
             \* runtime is known not to honour it (finding "unforked-merge").
             forked(o) == IF keys = <<>> THEN cpath \in probe.dm[o]
                          ELSE \E j \in DOMAIN keys : cpath \in rs[j].dm[o]
-            opv == [o \in onames |-> (IF forked(o) THEN spv ELSE {"~" \o x : x \in spv})
+            \* ... unless the collection is itself the result of a mapped call of the same
+            \* pipeline: then the runtime has a fork node to wait for (MergeExp.ForkNode)
+            srcMapped == \E i \in splits : LET e == c.binds[i].e.e IN
+                            e.k = "ref" /\ \E j \in DOMAIN pl.calls : pl.calls[j].id = e.call /\ pl.calls[j].mode # "none"
+            honoured(o) == forked(o) \/ srcMapped
+            opv == [o \in onames |-> (IF honoured(o) THEN spv ELSE {"~" \o x : x \in spv})
                                      \cup dv.pv \cup UNION {rs[j].pv[o] : j \in DOMAIN keys}]
             odm == [o \in onames |-> sdm \cup dv.dm \cup (((IF keys = <<>> THEN probe.dm[o] ELSE {}) \cup UNION {rs[j].dm[o] : j \in DOMAIN keys}) \ {cpath})]
             RECURSIVE Cat(_)
@@ -411,7 +416,7 @@ EvalCall(p, pl, env, c, path, ctx) ==
             \* still executed once.  They are listed as "ghost" invocations.
             ghosts == IF keys # <<>> THEN <<>> ELSE Ghosts(probe.inv)
             \* does the known defect "unforked-merge" concern this program?
-            wk == (spv # {} /\ \E o \in onames : ~forked(o))
+            wk == (spv # {} /\ \E o \in onames : ~honoured(o))
                   \/ (\E j \in DOMAIN keys : rs[j].wk) \/ (keys = <<>> /\ probe.wk)
         IN IF isdis THEN mk(Null, [o \in onames |-> dv.pv], odm, <<>>, mt, TRUE, wk)
            ELSE mk(val, opv, odm, Cat(1) \o ghosts, mt, FALSE, wk)
